@@ -11,6 +11,11 @@ RULE = ("every fault and sampled fault pair of the C01-C04 catalogues across for
         "distinct_nontrivial = distinct (label, form, outcome) tuples")
 
 
+def authcat_scn():
+    from harness import authcat
+    return authcat.Scn("ES256-P256")
+
+
 def run(tier, seed):
     chk = fw.Check("C19", tier, seed)
     br, ob = fw.standard_prelude(chk, with_coqchk=(tier == "thorough"))
@@ -51,6 +56,20 @@ def run(tier, seed):
             if not il.startswith("OK") and not il.startswith("ERR Lib:"):
                 chk.violation(f"{nm} raised outside the hierarchy: {il}", f"nonlib-parser {nm} {il}", {"entry": nm, "input_hex": b.hex(), "impl": il})
         chk.seen(("bytes", b))
+    for item in cborgen.hostile_cbor():
+        for nm, b in (("parse_cbor", item), ("parse_authenticator_data", rng.randbytes(32) + b"\x81\x00\x00\x00\x01" + item),
+                      ("parse_authenticator_data", rng.randbytes(32) + b"\x41\x00\x00\x00\x01" + bytes(16) + b"\x00\x01x" + item)):
+            f = (lambda: parse_cbor(b)) if nm == "parse_cbor" else (lambda: __import__("webauthn").helpers.parse_authenticator_data(b))
+            il = impl.outcome(f, lambda r: "v")
+            chk.evals += 1
+            if not il.startswith("OK") and not il.startswith("ERR Lib:"):
+                chk.violation(f"{nm} raised outside the hierarchy on hostile CBOR: {il}", f"nonlib-parser {nm} hostile {il}", {"entry": nm, "input_hex": b.hex()[:400], "impl": il})
+        # also as the authenticator data of a complete assertion
+        s0 = authcat_scn()
+        pol0, a0 = s0.build()
+        a0.ad = a0.ad[:32] + b"\x81" + a0.ad[33:37] + item
+        il, ml = A.run_case(pol0, a0, "record", None, "hostile-cbor-extension")
+        judge(il, "hostile-cbor-extension", {"entry": "verify_authentication_response", "authenticator_data_hex": a0.ad.hex()[:400], "impl": il})
     class Unencodable:
         pass
     for v in [Unencodable(), {"a": Unencodable()}, [1, object()], cborgen.gen_value(rng), lambda: 0, {1: {2: Unencodable}}, 2 ** 70, -2 ** 70, 1.5, float("nan"), (1, 2)]:
